@@ -55,6 +55,22 @@ UNITS = [
                   "implies(is_len_comparison(node) and node.op is not parse_tree.Comparator.NE, result is not None)"),
              ],
              twins=[("off-by-one", "implies(result is not None, sat(result.constraint, n) == comparison_holds(node, n + 1))")],
+             use_as_callee=False, replay="native.c15:replay_match"),
+
+    # ---- optional guards: exactly `self.p is None or C` and `not (self.p is not None) or C` are recognised
+    Contract("aas_core_codegen.infer_for_schema.match:try_conditional_on_prop", ["C15"], specs=S,
+             ensures=[
+                 ("only-guarded-forms", "implies(result is not None, is_guarded_form(node))"),
+                 ("guard-property", "implies(result is not None, result.prop_name == guard_prop(node))"),
+                 ("consequent", "implies(result is not None, result.consequent is guarded_consequent(node))"),
+                 ("guarded-forms-recognised", "implies(is_guarded_form(node), result is not None)"),
+             ],
+             twins=[("always-matches", "result is not None")],
+             use_as_callee=False, replay="native.c15:replay_conditional"),
+    Contract("aas_core_codegen.infer_for_schema.match:try_property", ["C15"], specs=S,
+             ensures=[("iff-self-member", "(result is not None) == is_self_prop(node)"),
+                      ("name", "implies(result is not None, result == node.name)")],
+             twins=[("any-member", "(result is not None) == is_kind(node, parse_tree.Member)")],
              use_as_callee=False),
 
     # ---- reduction of a list of constraints to one range
